@@ -166,7 +166,11 @@ def gen_plan(prop, tier, rng, i):
         # the mirror process is killed at a seeded FS-op boundary of one of its phases; a new mirror process is
         # started, replays the files that exist (start()) and receives all events delivered so far again
         plan["mirror_crash"] = {"round": rng.randrange(0, nrounds), "op": rng.randrange(0, 40)}
-    if rng.random() < 0.3:
+    if "fail_publish_nth" not in plan and "mirror_crash" not in plan and rng.random() < 0.2:
+        # a consumer works on the destination while the mirror runs (a second, move-mode mirror further down the
+        # chain, or a ringbuffer): between rounds it takes away every complete file and removes emptied directories
+        plan["consumer"] = True
+    elif rng.random() < 0.3:
         # the destination already holds files under some of the names that are about to be mirrored (left by an
         # earlier mirror of a recording that has since been redone): same size or shorter, other content, older
         plan["stale_dest"] = {"salt": rng.randrange(3), "kind": rng.choice(["same_size", "same_size", "shorter"])}
@@ -433,12 +437,29 @@ def run_plan(prop, plan):
         for rel, sha in src_final.items():
             cands = [sfiles.get(rel), dfiles.get(rel),
                      dfiles.get(os.path.join(os.path.dirname(rel), "tmp." + os.path.basename(rel)))]
-            ok = any(c is not None and K.file_sha(c) == sha for c in cands)
+            ok = any(c is not None and K.file_sha(c) == sha for c in cands) or consumed.get(rel) == sha
             if not ok:
                 viol("rf_file_lost", "no intact copy of %s in source or destination (next op: %s)" % (
                     rel, op.sig() if op else "-"), exdev=plan["exdev"])
 
     stale = {}   # rel -> sha of the planted stale destination file
+    consumed = {}  # rel -> sha of the complete copy a downstream consumer took out of the destination
+
+    def consume():
+        for rel, p_ in sorted(_walk_files(dest).items()):
+            b_ = os.path.basename(rel)
+            if b_.startswith("tmp."):
+                continue
+            sha = K.file_sha(p_)
+            ok_ = (sha == src_final.get(rel)) if _is_rf(rel) else (sha in versions.get(rel, []))
+            if not ok_:
+                continue   # (left where it is: the invariants will speak about it)
+            consumed[rel] = sha
+            os.remove(p_)
+        for dp_, dns_, fns_ in os.walk(dest, topdown=False):
+            if dp_ != dest and not os.listdir(dp_):
+                os.rmdir(dp_)
+        res.fault("destination_consumed_between_rounds")
 
     def plant_stale(r):
         import zlib
@@ -512,6 +533,8 @@ def run_plan(prop, plan):
                         snapshot_versions()
                     if ev.p1 == "mirror" and not crashed[0]:
                         plant_stale(phase[1])
+                        if plan.get("consumer") and phase[1] >= 1:
+                            consume()
                     if ev.p1 == "end":
                         check_boundary(None)
                     node.go()
@@ -614,6 +637,12 @@ def run_plan(prop, plan):
         for rel in sorted(want):
             if rel in failed_publish:
                 continue  # its publication was made to fail; the no-loss invariant has been checked at every boundary
+            if rel not in dfiles and rel in consumed:
+                if method != "move" and consumed[rel] != (src_final.get(rel) or versions[rel][-1]) and not _is_rf(rel) and \
+                        given_to_copy.get(rel, -1) >= modified_round.get(rel, 0) and rel not in expired_uncopied:
+                    viol("mirrored_content_differs", "%s was delivered downstream in an older version and its later "
+                         "modification (event delivered) never arrived" % rel, md=True, md_expired_before_copy=False)
+                continue
             if rel not in dfiles:
                 viol("not_mirrored", "%s (events delivered) is missing in the destination%s" % (
                     rel, " - the metadata ringbuffer deleted it from the source before it was copied" if rel in expired_uncopied else ""),
@@ -647,7 +676,9 @@ def run_plan(prop, plan):
                     viol("newest_metadata_removed", "newest metadata file %s is gone from the source" % mds[-1])
         # reader on the destination == the RF files that were mirrored
         stale_left = [r for r in stale if r in dfiles and K.file_sha(dfiles[r]) == stale[r]]
-        if stale_left:
+        if plan.get("consumer"):
+            res.probe("consumer_on_destination")   # (the reader comparison needs the whole channel in one place)
+        elif stale_left:
             res.probe("stale_destination_kept_after_failed_publish")
         elif plan["include_drf"] and any(_is_rf(r) for r in dfiles):
             _reader_check(plan, dest, dfiles, src_final, viol, res)
